@@ -56,6 +56,9 @@ fn bodies() -> Vec<(Vec<G>, bool)> {
         (vec![G::Closure(Box::new(G::Eq(x.clone(), T::I(1))))], true),
         (vec![G::Eq(x.clone(), T::list(vec![y.clone()]))], true),
         (vec![G::InFd(vec![x.clone()], Dom::Range(1, 2)), G::Fd(FdKind::Lte, vec![x.clone(), T::I(1)])], false),
+        // a fresh variable introduced by the body, with a choice on it: every element gets its own
+        (vec![G::Fresh(vec![5], vec![G::Conde(vec![vec![G::Eq(T::V(5), T::I(1))], vec![G::Eq(T::V(5), T::I(2))]])])], true),
+        (vec![G::Fresh(vec![5], vec![G::Conde(vec![vec![G::Eq(T::V(5), x.clone())], vec![G::Eq(T::V(5), T::I(3))]]), G::Neq(T::V(5), T::I(1))])], true),
         // bodies with several answers per element (multiplicities multiply)
         (vec![G::Rel(Rel::Member, vec![x.clone(), T::list(vec![T::I(1), T::I(1), T::I(2)])])], false),
         (vec![G::Conde(vec![vec![G::Eq(x.clone(), q.clone())], vec![G::Eq(x.clone(), y.clone())], vec![G::Succeed]])], true),
@@ -165,7 +168,7 @@ fn check(den: &Den, c: &CaseF, index: usize) -> (Vec<Violation>, bool) {
 }
 
 pub fn run(ctx: &mut Ctx) {
-    ctx.set("rule", json!("E3: 17 collections of 0..4 terms (ground, repeated in adjacent and non-adjacent positions, variables shared inside the collection and with the query, nested and partially ground lists) given as Vec<LTerm> and as an LTerm list x 12 bodies (bind, branch, constrain, fail, succeed, fresh, closure, FD) x 3 contexts: the answers of `for x in coll { body }` equal the answers of the explicit conjunction of the instantiated bodies (multisets of instance sets; canonical answers for FD/onceo bodies) and the reference semantics; the empty collection behaves as `true`. distinct_nontrivial = cases with answers."));
+    ctx.set("rule", json!("E3: 17 collections of 0..4 terms (ground, repeated in adjacent and non-adjacent positions, variables shared inside the collection and with the query, nested and partially ground lists) given as Vec<LTerm> and as an LTerm list x 16 bodies (bind, branch, constrain, fail, succeed, fresh, a choice on a fresh variable of the body, closure, multi-answer relation call, FD) x 3 contexts: the answers of `for x in coll { body }` equal the answers of the explicit conjunction of the instantiated bodies (multisets of instance sets; canonical answers for FD/onceo bodies) and the reference semantics; the empty collection behaves as `true`. distinct_nontrivial = cases with answers."));
     let den = Den::new(c02::universe2());
     let cs = cases();
     let sel: Vec<usize> = match &ctx.replay {
